@@ -140,13 +140,27 @@ def model_report(j, name, exc):
 # ---------------------------------------------------------------- operations
 def op_parse(base, op):
     fmt = op["fmt"]
-    p = P.getParser(FNAME[fmt])
-    p.readUnicode(op["text"])
+    name = op.get("name") or FNAME[fmt]
+    try:
+        p = P.getParser(name)
+    except UserWarning:
+        return {"canon": json.dumps({"noparser": name}), "junk": []}
+    if op.get("via") == "file":
+        # Parser.readFile, as compare / lint / add use it
+        d = tempfile.mkdtemp(dir=base)
+        try:
+            path = os.path.join(d, name)
+            write(path, op["text"])
+            p.readFile(path)
+        finally:
+            shutil.rmtree(d, ignore_errors=True)
+    else:
+        p.readUnicode(op["text"])
     ents = list(p.walk())
     loc = list(p.parse()) if op.get("keyed") else None
     res = {"canon": json.dumps([observe(e) for e in ents] + ([observe(e) for e in loc] if loc is not None else [])),
            "junk": [e.key for e in ents if isinstance(e, Junk)] + [e.key for e in (loc or []) if isinstance(e, Junk)]}
-    if fmt in ("properties", "dtd", "ini", "inc", "po") and not op.get("keyed"):
+    if fmt in ("properties", "dtd", "ini", "inc", "po") and not op.get("keyed") and not op.get("name"):
         res["model"] = " | ".join(["done"] + [model_entry(e, fmt) for e in ents])
     return res
 
@@ -189,7 +203,7 @@ def _compare(base, op, merge):
         j0 = obs_json(cc.observers.observers[0])
         res = {"canon": json.dumps({"list": j, "obs": j0, "exc": exc, "error": cc.observers.error,
                                     "merged": read(mergep) if merge else None}, sort_keys=True)}
-        if fmt in ("ini", "inc") and not merge and not op.get("extra"):
+        if fmt in ("ini", "inc") and not merge and not op.get("extra") and not op.get("name"):
             res["model"] = model_report(j0, name, exc)
         return res
     finally:
@@ -206,7 +220,7 @@ def op_merge(base, op):
 
 def op_lint(base, op):
     fmt = op["fmt"]
-    name = FNAME[fmt]
+    name = op.get("name") or FNAME[fmt]
     d = tempfile.mkdtemp(dir=base)
     try:
         curp = os.path.join(d, "cur", name)
@@ -218,7 +232,12 @@ def op_lint(base, op):
         exc = None
         out = []
         try:
-            for r in L10nLinter().lint_file(curp, refp, op.get("extra")):
+            if op.get("name"):
+                # the entry point of the lint command: files without a parser are skipped (parser.hasParser)
+                it = L10nLinter().lint([curp], lambda path: (refp, op.get("extra")))
+            else:
+                it = L10nLinter().lint_file(curp, refp, op.get("extra"))
+            for r in it:
                 r = dict(r)
                 r["path"] = os.path.basename(r["path"])
                 out.append(r)
@@ -227,6 +246,38 @@ def op_lint(base, op):
         return {"canon": json.dumps({"results": out, "exc": exc}, sort_keys=True)}
     finally:
         shutil.rmtree(d, ignore_errors=True)
+
+
+def op_add(base, op):
+    """ContentComparer.add: a file that is missing in the localization (counts the reference's strings)"""
+    fmt = op["fmt"]
+    name = op.get("name") or FNAME[fmt]
+    d = tempfile.mkdtemp(dir=base)
+    try:
+        refp = os.path.join(d, "ref", name)
+        l10p = os.path.join(d, "l10n", name)
+        write(refp, op["ref"])
+        cc = ContentComparer()
+        cc.observers.append(Observer())
+        exc = None
+        try:
+            cc.add(File(refp, name), File(l10p, name, locale="de"), None)
+        except Exception as ex:       # noqa
+            exc = "%s: %s" % (type(ex).__name__, ex)
+        return {"canon": json.dumps({"obs": obs_json(cc.observers.observers[0]), "exc": exc}, sort_keys=True)}
+    finally:
+        shutil.rmtree(d, ignore_errors=True)
+
+
+def op_hasparser(base, op):
+    out = []
+    for n in op["names"]:
+        has = P.hasParser(n)
+        cls = None
+        if has:
+            cls = type(P.getParser(n)).__name__
+        out.append([n, has, cls])
+    return {"canon": json.dumps(out)}
 
 
 def op_serialize(base, op):
@@ -310,7 +361,7 @@ def op_files(base, op):
 
 
 OPS = {"parse": op_parse, "hold": op_hold, "reobs": op_reobs, "compare": op_compare, "merge": op_merge,
-       "lint": op_lint, "serialize": op_serialize, "mozmatch": op_mozmatch, "project": op_project,
+       "lint": op_lint, "serialize": op_serialize, "add": op_add, "hasparser": op_hasparser, "mozmatch": op_mozmatch, "project": op_project,
        "files": op_files}
 
 
